@@ -91,4 +91,10 @@ CLAIMED["C16"] = (
     "from_info/connect_from_info round trips are compared with the model after every operation; a few histories end in a simulated episode whose recorded delays must be the configured ones.",
     "default expected delay (99th percentile) read back once at creation; phases to 1e-9", "DESIGN.md §4 C16",
 )
+CLAIMED["C18"] = (
+    PBT + ": invariants over the optimisation history (bounds, monotone best-so-far == min finite loss seen, best candidate attained it, NaN handling) + reference model of the CEM mean update",
+    "Generated losses (incl. NaN regions), bounds, CEM hyper-parameters / seven evosax strategies, seeds and iteration counts, stepwise and through the jitted scans; "
+    "candidates are captured by a host callback inside the loss so the history is judged without reproducing rex's key splitting.",
+    "evosax internals trusted; one known finding (OpenES + NaN loss => NaN candidates) is listed in known_findings.json and reported as KNOWN-FINDING", "DESIGN.md §4 C18",
+)
 NOT_APPLICABLE = {}
